@@ -26,6 +26,7 @@ type Program struct {
 	ByPath   map[string]*packages.Package // all packages in the closure
 	SSA      *ssa.Program
 	SSAPkgs  map[string]*ssa.Package
+	DeferSpills int
 	AllFuncs []*ssa.Function // source functions of irismod packages (incl. anonymous), sorted
 	NPkgAll  int
 	Whole    bool
@@ -181,6 +182,13 @@ func (p *Program) collectFuncs() {
 					}
 				}
 			}
+		}
+	}
+	for _, f := range p.AllFuncs {
+		a, b := forwardLoads(f), normaliseDeferSpill(f)
+		p.DeferSpills += a + b
+		if os.Getenv("DEBUG_SPILL") != "" && a+b > 0 {
+			fmt.Fprintf(os.Stderr, "spill %s: forwarded %d loads, %d returns\n", f, a, b)
 		}
 	}
 	sort.Slice(p.AllFuncs, func(i, j int) bool {
